@@ -414,11 +414,42 @@ def parse_word_fold_arms(src):
 
 # ------------------------------------------------------------------ constants
 
-def find_const(src, name, origin):
+def const_expr(src, expr, origin, depth=0):
+    """Value of a constant expression: integer literals, other constants of the same file (`NAME`,
+    `Self::NAME`), `+ - * << >> & |`, parentheses and `as <int type>` casts."""
+    import ast as pyast
+    if depth > 8:
+        raise TranslateError("%s: constant expression nests too deep: %r" % (origin, expr))
+    e = re.sub(r"\bas\s+(?:u8|u16|u32|u64|usize|i32|i64|isize)\b", "", expr)
+
+    def lit(m):
+        return str(rust_int(m.group(0)))
+
+    e = re.sub(r"\b(?:0x[0-9A-Fa-f_]+|0b[01_]+|0o[0-7_]+|[0-9][0-9_]*)(?:u8|u16|u32|u64|usize|i32)?\b", lit, e)
+
+    def ident(m):
+        return str(find_const(src, m.group(1), origin, depth + 1))
+
+    e = re.sub(r"\b(?:Self::)?([A-Z][A-Z0-9_]*)\b", ident, e)
+    if not re.fullmatch(r"[0-9+\-*<>&|() \t\n]+", e):
+        raise TranslateError("%s: not a constant expression: %r" % (origin, expr))
+    try:
+        tree = pyast.parse(e.strip(), mode="eval")
+    except SyntaxError:
+        raise TranslateError("%s: not a constant expression: %r" % (origin, expr))
+    ok = (pyast.Expression, pyast.BinOp, pyast.UnaryOp, pyast.Constant, pyast.Add, pyast.Sub, pyast.Mult, pyast.LShift, pyast.RShift,
+          pyast.BitAnd, pyast.BitOr, pyast.USub)
+    for n in pyast.walk(tree):
+        if not isinstance(n, ok):
+            raise TranslateError("%s: not a constant expression: %r" % (origin, expr))
+    return int(eval(compile(tree, "<const>", "eval"), {"__builtins__": {}}, {}))
+
+
+def find_const(src, name, origin, depth=0):
     m = re.search(r"const\s+" + name + r"\s*:\s*[a-z0-9]+\s*=\s*([^;]+);", src)
     if not m:
         raise TranslateError("%s: constant %s not found" % (origin, name))
-    return rust_int(m.group(1))
+    return const_expr(src, m.group(1), origin, depth)
 
 
 def duplicate_depth_limit(ir_src):
@@ -436,7 +467,10 @@ def surrogate_pair_mask(indexing_src):
     m = re.match(r"\s*\(\(\(high\s*&\s*(\w+)\)\s*as\s+u32\)\s*<<\s*10\s*\|\s*\(low\s*&\s*(\w+)\)\s*as\s+u32\)\s*\+\s*0x1_0000\s*$", body)
     if not m or m.group(1) != m.group(2):
         raise TranslateError("indexing.rs: code_point_from_surrogates is not `(((high & M) as u32) << 10 | (low & M) as u32) + 0x1_0000`")
-    return rust_int(m.group(1))
+    tok = m.group(1)
+    if re.fullmatch(r"[A-Z][A-Z0-9_]*", tok):
+        return find_const(indexing_src, tok, "indexing.rs")
+    return rust_int(tok)
 
 
 def parse_escape_chars(api_src):
